@@ -115,9 +115,10 @@ structure DelPost (c : Cfg) (s s' : HC) : Prop where
   fields : ∀ m, (s'.nd m).type = (s.nd m).type ∧ (s'.nd m).oid = (s.nd m).oid ∧
     (s'.nd m).name = (s.nd m).name ∧ (s'.nd m).isRoot = (s.nd m).isRoot
   idsub : ∀ e, e ∈ s'.idmap → e ∈ s.idmap
+  parents : ∀ m, (s'.nd m).parent = (s.nd m).parent ∨ (s'.nd m).parent = none
 
 theorem DelPost.refl {c : Cfg} {s : HC} (hc : Coherent c s) : DelPost c s s :=
-  ⟨hc, rfl, fun _ _ => rfl, fun _ => Or.inr rfl, fun _ => ⟨rfl, rfl, rfl, rfl⟩, fun _ h => h⟩
+  ⟨hc, rfl, fun _ _ => rfl, fun _ => Or.inr rfl, fun _ => ⟨rfl, rfl, rfl, rfl⟩, fun _ h => h, fun _ => Or.inl rfl⟩
 
 theorem DelPost.reach {c : Cfg} {s s' : HC} (h : DelPost c s s') {m : Nat} (hm : Reach s' m) : Reach s m := by
   obtain ⟨q, hq⟩ := hm
@@ -141,13 +142,20 @@ theorem DelPost.trans {c : Cfg} {s s1 s2 : HC} (h1 : DelPost c s s1) (h2 : DelPo
     have b := h1.fields m
     exact ⟨a.1.trans b.1, a.2.1.trans b.2.1, a.2.2.1.trans b.2.2.1, a.2.2.2.trans b.2.2.2⟩
   idsub := fun e he => h1.idsub e (h2.idsub e he)
+  parents := fun m => by
+    rcases h2.parents m with a | a
+    · rcases h1.parents m with b | b
+      · exact Or.inl (a.trans b)
+      · exact Or.inr (a.trans b)
+    · exact Or.inr a
 
 /-- full specification of one `delete(oid, path)` call -/
 def DelSpec (c : Cfg) (s : HC) (oid : Option Oid) (path : Option Str) (out : HC × Except Err Unit) : Prop :=
   DelPost c s out.1 ∧
   (∀ x kx, getNode c s oid path = .ok (some x) → res s kx = some x →
       (∀ q, ¬ kx <+: q → res out.1 q = res s q) ∧
-      (out.2 = .ok () → x ≠ 0 → ∀ q, kx <+: q → res out.1 q = none)) ∧
+      (out.2 = .ok () → x ≠ 0 → ∀ q, kx <+: q → res out.1 q = none) ∧
+      (out.2 = .ok () → x ≠ 0 → (out.1.nd x).parent = none)) ∧
   ((∀ x, getNode c s oid path ≠ .ok (some x)) → out.1 = s) ∧
   (out.2 = .ok () ∨ out.2 = .error .fuel ∨ ∃ e, getNode c s oid path = .error e ∧ out.2 = .error e)
 
@@ -229,6 +237,13 @@ theorem DelCtx.delPost {c : Cfg} {s : HC} {init : List Str} {a : Str} {p n : Nat
       · subst h2; simp [h1]
       · simp [h1, h2]
   idsub := fun e he => d.detach_idmap_mem he
+  parents := fun m => by
+    rw [d.nd_detach]
+    by_cases h1 : m = n
+    · subst h1; simp
+    · by_cases h2 : m = p
+      · subst h2; simp [h1]
+      · simp [h1, h2]
 
 theorem deleteNode_ctx {c : Cfg} {s : HC} {init : List Str} {a : Str} {p n : Nat} (d : DelCtx c s init a p n) :
     deleteNode c (some n) s = (detachSt c s p n a, .ok (some n)) :=
@@ -255,8 +270,8 @@ theorem deleteRec_spec {c : Cfg} (g : CfgGood c) : ∀ (f : Nat) (s : HC) (oid :
   induction f with
   | zero =>
     intro s oid path hc
-    exact ⟨DelPost.refl hc, fun x kx _ _ => ⟨fun _ _ => rfl, fun h => by simp [deleteRec] at h⟩, fun _ => rfl,
-      Or.inr (Or.inl rfl)⟩
+    exact ⟨DelPost.refl hc, fun x kx _ _ => ⟨fun _ _ => rfl, fun h => by simp [deleteRec] at h,
+      fun h => by simp [deleteRec] at h⟩, fun _ => rfl, Or.inr (Or.inl rfl)⟩
   | succ f ih =>
     intro s oid path hc
     rw [deleteRec_succ]
@@ -291,7 +306,7 @@ theorem deleteRec_spec {c : Cfg} (g : CfgGood c) : ∀ (f : Nat) (s : HC) (oid :
           refine ⟨hpost, fun y ky hy hky => ?_, fun h => absurd hg (h x), ?_⟩
           · rw [hg] at hy; cases hy
             rw [hc.res_inj hky hkx]
-            exact ⟨hout, fun h => by simp at h⟩
+            exact ⟨hout, fun h => by simp at h, fun h => by simp at h⟩
           · rcases hres with h | h
             · simp at h
             · exact Or.inr (Or.inl h)
@@ -304,7 +319,7 @@ theorem deleteRec_spec {c : Cfg} (g : CfgGood c) : ∀ (f : Nat) (s : HC) (oid :
             refine ⟨hpost, fun y ky hy hky => ?_, fun h => absurd hg (h 0), Or.inl rfl⟩
             rw [hg] at hy; cases hy
             rw [hc.res_root hky]
-            exact ⟨hout, fun _ h0 => absurd rfl h0⟩
+            exact ⟨hout, fun _ h0 => absurd rfl h0, fun _ h0 => absurd rfl h0⟩
           · rw [List.concat_eq_append] at hkx htx hout
             obtain ⟨p, hp, hk⟩ := res_snoc_some htx
             have d : DelCtx c t init a p x := ⟨g, hpost.coh, hp, hk⟩
@@ -312,7 +327,7 @@ theorem deleteRec_spec {c : Cfg} (g : CfgGood c) : ∀ (f : Nat) (s : HC) (oid :
             refine ⟨hpost.trans d.delPost, fun y ky hy hky => ?_, fun h => absurd hg (h x), Or.inl rfl⟩
             rw [hg] at hy; cases hy
             rw [hc.res_inj hky hkx]
-            refine ⟨fun q hq => ?_, fun _ _ q hq => d.res_detach_in q hq⟩
+            refine ⟨fun q hq => ?_, fun _ _ q hq => d.res_detach_in q hq, fun _ _ => by rw [d.nd_detach]; simp⟩
             rw [d.res_detach_out q hq, hout q hq]
 
 theorem delete_spec {c : Cfg} (g : CfgGood c) (s : HC) (oid : Option Oid) (path : Option Str) (hc : Coherent c s) :
